@@ -222,6 +222,34 @@ def nontrivial(ev):
     return len(ev.get("w", [])) > 0
 
 
+# the 18 variants of snap::Error; TooLongDiff needs more than 2^32 integers of input
+ERROR_ALPHABET = ["UnexpectedEnd", "IntOutOfRange", "DeletedItemsUnpacking", "ItemDiffsUnpacking", "TypeIdRange", "IdRange",
+                  "NegativeSize", "TooLongSnap", "TooManyItems", "DeltaDifferingSizes", "OffsetsUnpacking", "InvalidOffset",
+                  "ItemsUnpacking", "DuplicateKey", "DuplicateUuidType", "InvalidUuidType", "MissingUuidType"]
+
+
+def outcomes_of(ev):
+    """Outcome strings of the library calls of an event (evidence: which error classes occurred)."""
+    out = []
+    if ev.get("op") == "parse":
+        for k in ("raw", "snap"):
+            if isinstance(ev.get(k), dict) and "out" in ev[k]:
+                out.append(ev[k]["out"])
+        d = ev.get("d")
+        if isinstance(d, dict):
+            out.append(d.get("read", "?"))
+            if "apply" in d:
+                out.append(d["apply"])
+    elif ev.get("op") == "pair":
+        for k in ("r_ints", "r_bytes", "r_ref"):
+            if isinstance(ev.get(k), dict):
+                out.append(ev[k].get("apply", ev[k].get("read", "?")))
+    elif ev.get("op") == "snap":
+        out += list(ev.get("outs", []))
+        out += [c.get("out", "?") for c in ev.get("copies", [])]
+    return out
+
+
 def trim(obj, n=24):
     """Shorten long arrays for the evidence samples."""
     if isinstance(obj, list):
@@ -244,6 +272,7 @@ class Run:
         self.reported = {}     # key -> count
         self.drift = {}        # text -> count
         self.traces = 0
+        self.outcomes = {}
 
     def account(self, results, label):
         ctx = self.ctx
@@ -259,6 +288,8 @@ class Run:
                 self.seen.add(d)
                 if nontrivial(ev):
                     self.nontrivial.add(d)
+                for o in outcomes_of(ev):
+                    self.outcomes[o] = self.outcomes.get(o, 0) + 1
             for ev in evs[:1]:
                 ctx.sample({"from": label, "case": trim(case_of(ev)), "event_fields": sorted(ev.keys())}, limit=6)
             for idx, lvl, text in r["complaints"]:
@@ -295,6 +326,11 @@ class Run:
         for key, n in sorted(self.reported.items()):
             if n > 1:
                 ctx.note("%s: %d events in total" % (key, n))
+        ctx.coverage["outcomes_observed"] = dict(sorted(self.outcomes.items()))
+        if self.ctx.id == "C11" and self.events > 1000:
+            missing = [e for e in ERROR_ALPHABET if self.outcomes.get(e, 0) == 0]
+            if missing:
+                ctx.note("vacuity: error classes never produced by the code in this run: %s" % ", ".join(missing))
         ctx.coverage["evaluations"] = self.events
         ctx.coverage["distinct_nontrivial"] = len(self.nontrivial)
         ctx.coverage["distinct_cases"] = len(self.seen)
